@@ -310,6 +310,8 @@ pub struct CommitSpec {
     /// leaf indices to remove by value
     pub remove: Vec<u32>,
     pub external_psks: Vec<Vec<u8>>,
+    /// list the resumption PSKs before the external ones in the commit
+    pub resumption_psks_first: bool,
     pub resumption_psk_epochs: Vec<u64>,
     pub gce: Option<Vec<u8>>,
     pub custom: Option<Vec<u8>>,
@@ -807,11 +809,18 @@ impl World {
             for r in &spec2.remove {
                 b = b.remove_member(*r)?;
             }
+            if spec2.resumption_psks_first {
+                for e in &spec2.resumption_psk_epochs {
+                    b = b.add_resumption_psk(*e)?;
+                }
+            }
             for id in &spec2.external_psks {
                 b = b.add_external_psk(mls_rs::psk::ExternalPskId::new(id.clone()))?;
             }
-            for e in &spec2.resumption_psk_epochs {
-                b = b.add_resumption_psk(*e)?;
+            if !spec2.resumption_psks_first {
+                for e in &spec2.resumption_psk_epochs {
+                    b = b.add_resumption_psk(*e)?;
+                }
             }
             if let Some(data) = &spec2.gce {
                 let mut ext = ExtensionList::new();
